@@ -535,3 +535,6 @@ pub fn native_start_hash_and_pairwise_xor() {
 pub mod moves;
 #[path = "instances.rs"]
 pub mod inst;
+
+#[path = "c_fen.rs"]
+pub mod fen;
